@@ -24,13 +24,13 @@ type indexEntry struct {
 }
 
 type selftestResult struct {
-	Breaking  int      `json:"breaking_patches"`
-	Detected  int      `json:"detected"`
-	Benign    int      `json:"benign_patches"`
-	Quiet     int      `json:"quiet"`
-	Failures  []string `json:"failures"`
-	Skipped   []string `json:"skipped"`
-	Patches   []string `json:"patches"`
+	Breaking int      `json:"breaking_patches"`
+	Detected int      `json:"detected"`
+	Benign   int      `json:"benign_patches"`
+	Quiet    int      `json:"quiet"`
+	Failures []string `json:"failures"`
+	Skipped  []string `json:"skipped"`
+	Patches  []string `json:"patches"`
 }
 
 func runSelftest(propID, repo string) selftestResult {
